@@ -31,6 +31,10 @@ func NewValueFromString(typ Type, data string) (Value, error) {
 		if err := json.Unmarshal([]byte(data), &number); err != nil {
 			return nil, err
 		}
+		if number == nil {
+			// JSON null decodes into a nil pointer without an error
+			return nil, errors.New("number must not be null")
+		}
 		value = number
 	case TypeMonetary:
 		parts := strings.SplitN(data, " ", 2)
